@@ -47,4 +47,5 @@ func runC11(r *Report) {
 	ruleWriteCount(r)
 	ruleInputsValidated(r)
 	ruleSentinelForm(r, "pq", "sstables", "memstore", "simpledb", "skiplist")
+	ruleSentinelProducible(r, "pq", "sstables", "memstore", "simpledb")
 }
